@@ -12,6 +12,8 @@ symbolic variable names and values, prepend/append are short lists of distinct p
 The parser's format defaults are outside (C07 claims the Cram ones)."""
 import random
 
+import time
+
 import z3
 
 import e2
@@ -347,7 +349,7 @@ def replay_tcc(rep, h, res, op, layers_of):
 
 # ---- where the command-line layer is applied: commands::test::Args::run (bin crate) ---------------------------------------------
 
-def h_cli_layer(prog):
+def h_cli_layer(prog, only_timeout=False):
     """`scrut test` with symbolic --combine-output / --no-combine-output / --keep-output-crlf / --no-keep-output-crlf / --timeout-seconds
     (and, as bystanders, --cram-compat / --keep-temporary-directories) over a
     document whose only test case has a fully symbolic inline configuration: what reaches the executor"""
@@ -372,17 +374,20 @@ def h_cli_layer(prog):
                 return Agg("ContextBuilder", None, [])
             ins(r"scrut::executors::context::ContextBuilder::config", cb_config)
 
-    def setup(ctx):
+    def setup(ctx, cli_pre=0, cli_app=0):
         # the document has a front-matter prepend and append document: their test cases go through the same executor call
-        args = c20.mk_setup(0, 0, [c20.Doc(0, 1, 1, 1, "ok", "CCC")])(ctx)
-        tcc = sym_tcc(ctx, "t", 1)
+        # (and, in the variants, documents named by --prepend-test-file-paths / --append-test-file-paths)
+        args = c20.mk_setup(cli_pre, cli_app, [c20.Doc(0, 1, 1, 1, "ok", "C" * (3 + cli_pre + cli_app))])(ctx)
+        ctx.notes["cli_docs"] = (cli_pre, cli_app)
+        empty = lambda: ctx.call(ctx.program.resolve_call("TestCaseConfig::empty"), [])
+        tcc = empty() if only_timeout else sym_tcc(ctx, "t", 1)
         doc = ctx.notes["documents"][0]
         tc = field_of(doc, "testcases").items[0]
         tc.fields[STRUCTS["TestCase"].index("config")] = tcc
         extra_layers = {}
         for key, tag in (("path:p", "pre"), ("path:q", "app")):
             base = ctx.notes["extra"][key]
-            cfg = sym_tcc(ctx, tag, 0)
+            cfg = empty() if only_timeout else sym_tcc(ctx, tag, 0)
             extra_layers[tag] = cfg
 
             def build(c, base=base, cfg=cfg):
@@ -401,11 +406,11 @@ def h_cli_layer(prog):
         gorder = [n for n, _t in c20.struct_order(e2.REPO + "/src/bin/commands/root.rs", "GlobalSharedParameters", typed=True)]
         flags = {}
         for name in ("combine_output", "no_combine_output", "keep_output_crlf", "no_keep_output_crlf"):
-            flags[name] = ctx.sym_bool("cli_" + name)
+            flags[name] = SBool(False) if only_timeout else ctx.sym_bool("cli_" + name)
             g.fields[gorder.index(name)] = flags[name]
         # flags that are no configuration layer: whatever they are, they must not change what a test case gets
         for name in ("cram_compat", "keep_temporary_directories"):
-            flags[name] = ctx.sym_bool("cli_" + name)
+            flags[name] = SBool(False) if only_timeout and name != "cram_compat" else ctx.sym_bool("cli_" + name)
             g.fields[gorder.index(name)] = flags[name]
         # (a flag and its negation may both be given — the command line accepts that; then either value is "the command line's")
         secs = ctx.sym_int("cli_timeout_seconds", "u64")
@@ -419,13 +424,21 @@ def h_cli_layer(prog):
         if kind != "return":
             return False
         seen = ctx.notes.get("seen_configs")
-        if not seen or len(seen) != 3:
+        cli_pre, cli_app = ctx.notes["cli_docs"]
+        if not seen or len(seen) != 3 + cli_pre + cli_app:
             return False
         titles = ctx.notes["executed_titles"][0]
         by_title = dict(zip(titles, seen))
-        if sorted(by_title) != ["a0", "p0", "q0"]:
+        if sorted(by_title) != sorted(["a0", "p0", "q0"] + ["P0"] * cli_pre + ["Q0"] * cli_app):
             return False
         got, t, cli = by_title["a0"], ctx.notes["layers"]["test"], ctx.notes["cli"]
+        if only_timeout:
+            dgot = ctx.notes.get("seen_document_config")
+            if dgot is None:
+                return False
+            ts = cli["timeout_seconds"]
+            want_total = spec_or(ctx, SymOpt(ts.present, Agg("Duration", None, [mk_int(z3.BV2Int(ts.fields[0].z()) * 10 ** 9, "nat")])), ctx.notes["layers"]["doc_total"])
+            return opt_same(ctx, field_of(dgot, "total_timeout"), want_total)
         from mir_exec import mk_bool
         osc = ENUMS["OutputStreamControl"]
         conds = []
@@ -463,13 +476,26 @@ def h_cli_layer(prog):
             return False
         ts = cli["timeout_seconds"]
         want_total = spec_or(ctx, SymOpt(ts.present, Agg("Duration", None, [mk_int(z3.BV2Int(ts.fields[0].z()) * 10 ** 9, "nat")])), ctx.notes["layers"]["doc_total"])
+        if only_timeout:
+            return opt_same(ctx, field_of(dgot, "total_timeout"), want_total)
         conds.append(opt_same(ctx, field_of(dgot, "total_timeout"), want_total))
         return z_and(conds)
-    h = e2.Harness("cli_layer_in_test_command", c20.drive, [("1 document with a prepend and an append document, 1 test case each, symbolic inline configurations and flags", setup)], post, native=None, judge=None,
+    variants = [("1 document with a prepend and an append document, 1 test case each, symbolic inline configurations and flags%s"
+                 % ("" if not (cp or ca) else "; --prepend-test-file-paths=%d --append-test-file-paths=%d" % (cp, ca)),
+                 (lambda ctx, cp=cp, ca=ca: setup(ctx, cp, ca))) for cp, ca in (((0, 0), (0, 1), (1, 0), (1, 1)) if only_timeout else ((0, 0), (1, 1)))]
+    if only_timeout:
+        h = e2.Harness("timeout_seconds_reaches_the_document", c20.drive, variants, post, native=None, judge=None,
+                       describe="the document configuration handed to the executor has total_timeout = --timeout-seconds if given, else the document's own",
+                       bound="any --timeout-seconds < 10^6, any document total_timeout (absent / any value), with / without --cram-compat; with / without a "
+                             "document named by --prepend-test-file-paths / --append-test-file-paths")
+        h.models_cls = CliModels
+        return h
+    h = e2.Harness("cli_layer_in_test_command", c20.drive, variants, post, native=None, judge=None,
                    describe="what reaches the executor: output_stream / keep_crlf from the command-line flag if given else from the test case; every other "
                             "key and the test case's variables unchanged — for the document's own test case and for those of its prepend / append documents; "
                             "total_timeout = --timeout-seconds if given else the document's",
-                   bound="all inline configurations (every key set / unset, any value; 1 variable), all admissible flag combinations, any --timeout-seconds < 10^6")
+                   bound="all inline configurations (every key set / unset, any value; 1 variable), all admissible flag combinations, any --timeout-seconds < 10^6; "
+                         "with / without a document named by --prepend-test-file-paths / --append-test-file-paths")
     h.models_cls = CliModels
     return h
 
@@ -647,7 +673,57 @@ def run_cli_layer(rep, tier):
             bad += 1
             rep.violation("cli-layer:native", "`scrut test` with inline %s and flags %s runs the test case with %s, prescribed %s" % (inline, flags, got, want),
                           {"kind": "scrut-test-run", "observation": obs, "harness": "end-to-end sample"})
+    bad += timeout_seconds_samples(rep, rows)
     rep.subclaims[-1]["concrete_validation"] = {"inputs": len(rows), "mismatches": bad, "function": "real `scrut test -r json` runs; configuration read from the reported test case"}
+
+
+def timeout_seconds_samples(rep, rows):
+    """--timeout-seconds is the command line's total_timeout, with and without documents named on the command line → number of bad runs"""
+    bad = 0
+    import os
+    import shutil
+    import subprocess
+    import tempfile
+    from common import SCRUT_BIN
+    tmp = tempfile.mkdtemp(prefix="verif-c16t-")
+    try:
+        open(os.path.join(tmp, "slow.md"), "w").write("# slow\n\n```scrut\n$ sleep 3\n```\n")
+        open(os.path.join(tmp, "extra.md"), "w").write("# extra\n\n```scrut\n$ true\n```\n")
+        for extra in ([], ["--append-test-file-paths", "extra.md"], ["--prepend-test-file-paths", "extra.md"]):
+            t0 = time.time()
+            r = subprocess.run([SCRUT_BIN, "test", "-r", "json", "slow.md", "--timeout-seconds", "1"] + extra, cwd=tmp, stdout=subprocess.PIPE, stderr=subprocess.PIPE, text=True, timeout=60)
+            took = time.time() - t0
+            rows.append(("timeout-seconds", extra))
+            if r.returncode != 50 or took > 2.8:
+                bad += 1
+                rep.violation("cli-layer:timeout-seconds-lost", "`scrut test slow.md --timeout-seconds 1 %s` on a document that sleeps 3 s ends with exit status %d after %.1f s "
+                              "(expected: stopped after 1 s, exit status 50)" % (" ".join(extra), r.returncode, took),
+                              {"kind": "scrut-test-run", "observation": {"argv": ["test", "-r", "json", "slow.md", "--timeout-seconds", "1"] + extra, "exit": r.returncode,
+                                                                         "seconds": round(took, 1), "stdout_tail": r.stdout[-300:]}, "harness": "end-to-end sample"})
+    finally:
+        shutil.rmtree(tmp, ignore_errors=True)
+    return bad
+
+
+def run_timeout_seconds(rep, tier):
+    """C14: how --timeout-seconds reaches the document configuration (bin crate MIR) + end-to-end samples"""
+    from common import build_scrut_bin
+    from props import c20
+    prog, _s = c20.load_bin_program()
+    build_scrut_bin()
+    h = h_cli_layer(prog, only_timeout=True)
+    res = e2.run_with_raw(prog, h, max_witnesses=3)
+    rows = []
+    bad = timeout_seconds_samples(rep, rows)
+    for model, r in res.raw_witnesses[:3]:
+        if not bad:
+            rep.violation("timeout-seconds:mir-only", "commands::test::Args::run hands the executor a document configuration whose total_timeout is not "
+                          "`--timeout-seconds over the document's` (decided on its MIR; the end-to-end samples with --timeout-seconds 1 behave)",
+                          {"kind": "mir-only", "harness": h.name})
+    e2.record(rep, h, res, status=("violated" if res.witnesses else ("undecided" if res.unsupported else "holds")))
+    for u in res.unsupported[:3]:
+        rep.undecided.append(u)
+    rep.subclaims[-1]["concrete_validation"] = {"inputs": len(rows), "mismatches": bad, "function": "real `scrut test --timeout-seconds 1` runs on a document that sleeps 3 s"}
 
 
 def run_exec_layer(rep, prog, nat):
